@@ -9,8 +9,8 @@ EXTENDS Integers, Sequences, FiniteSets, FiniteSetsExt, TLC, Json, IOUtils, Sequ
 File == JsonDeserialize(IOEnv.TRACE_FILE)
 Traces == File.traces
 
-VARIABLES heap, out, tid, l
-tvars == <<heap, out, tid, l>>
+VARIABLES heap, out, tid, l, aux
+tvars == <<heap, out, tid, l, aux>>      \* aux: other objects given to computations (dissimilarities), as opaque values
 
 C == INSTANCE Continuum WITH Obj <- 1..File.nobj, Zero <- File.zero, EmitEdges <- FALSE, Mutant <- "none"
 
@@ -23,7 +23,7 @@ HasObs(e, o) == \E k \in 1..Len(e.obs) : e.obs[k][1] = o
 ValOf(p) == [ann |-> ToSet(p.ann), units |-> ToSet(p.units), cats |-> ToSet(p.cats),
              lo |-> p.lo, hi |-> p.hi, bws |-> p.bws]
 
-Init == tid \in 1..Len(Traces) /\ l = 1 /\ heap = [o \in 1..File.nobj |-> C!NoObj] /\ out = "ok"
+Init == tid \in 1..Len(Traces) /\ l = 1 /\ heap = [o \in 1..File.nobj |-> C!NoObj] /\ out = "ok" /\ aux = <<>>
 
 \* bind the nondeterministic part of an action (categories carried) to the observation when allowed
 CatsMatch(o) == HasObs(E, o) => heap'[o].cats = ToSet(ObsOfIn(E, o).cats)
@@ -36,6 +36,7 @@ Skip == heap' = heap /\ out' = "not-enabled"
 Step ==
     /\ l <= Len(T)
     /\ l' = l + 1 /\ tid' = tid
+    /\ aux' = IF E.op = "newaux" THEN Append(aux, <<A(1), E.auxval>>) ELSE aux     \* created once, never changed by any call
     /\ CASE E.op = "new" -> IF heap[A(1)] = C!NoObj THEN C!New(A(1)) ELSE Skip
          [] E.op = "add" -> IF A(1) \in C!Live THEN C!Add(A(1), A(2), A(3), A(4), A(5)) ELSE Skip
          [] E.op = "add_annotator" -> IF A(1) \in C!Live THEN C!AddAnnotator(A(1), A(2)) ELSE Skip
@@ -67,6 +68,7 @@ Step ==
          [] E.op = "reset_bounds" -> IF A(1) \in C!Live THEN C!ResetBounds(A(1)) ELSE Skip
          [] E.op = "drop" -> IF A(1) \in C!Live THEN C!Drop(A(1)) ELSE Skip
          [] E.op = "compute" -> C!Compute(E.kind)
+         [] E.op = "newaux" -> C!Compute("newaux")
          [] E.op = "fast_gamma" -> IF A(1) \in C!Live THEN C!FastGamma(A(1), A(2)) ELSE Skip
          [] E.op = "derive" -> IF heap[A(1)] = C!NoObj /\ HasObs(E, A(1))
                                  THEN C!Derive(A(1), ValOf(ObsOfIn(E, A(1)))) ELSE Skip
@@ -109,6 +111,8 @@ ObsViews    == \A o \in C!Live : HasObs(Prev, o) =>                      \* cont
                    /\ {vs[k][1] : k \in 1..Len(vs)} = heap[o].ann
                    /\ \A k \in 1..Len(vs) : /\ ToSet(vs[k][2]) = C!UnitsOf(heap[o], vs[k][1])
                                               /\ IsStrict(vs[k][2], C!ULess)
+\* every dissimilarity (or other auxiliary input) still is exactly what it was when it was created
+ObsAux == \A k \in 1..Len(Prev.aux) : \A j \in 1..Len(aux) : aux[j][1] = Prev.aux[k][1] => aux[j][2] = Prev.aux[k][2]
 ObsDerivedWellFormed == Prev.op = "derive" /\ out = "ok" => C!WellFormed(heap[Prev.args[1]])
 
 Judge(name, ok) == ok \/ PrintT(ToJson([verdict |-> name, tid |-> tid, l |-> l - 1]))
@@ -132,4 +136,5 @@ Verdicts ==
         /\ Judge("ObsEq", ObsEq)
         /\ Judge("ObsViews", ObsViews)
         /\ Judge("ObsDerivedWellFormed", ObsDerivedWellFormed)
+        /\ Judge("ObsAux", ObsAux)
 =============================================================================
